@@ -19,8 +19,8 @@ ASSUMPTIONS = [
     "float masses compared at 1e-12 relative (accumulated rounding of the float sum)",
 ]
 REL = Fraction(1, 10 ** 12)
-QUICK = ["counts_q", "hyd_q", "decor_q", "symbols"]
-THOROUGH = ["nest_t", "counts_t", "hyd_t", "decor_t", "symbols"]
+QUICK = ["counts_q", "hyd_q", "decor_q", "symbols", "symsuf"]
+THOROUGH = ["nest_t", "counts_t", "hyd_t", "decor_t", "symbols", "symsuf"]
 
 
 def limbs_to_int(l):
